@@ -159,19 +159,12 @@ def pinned_len(an, es, bb):
     adm = [(0, guards.INF)]
     hit = False
     for d, cond, allowed, alll in an.constraints_at(bb):
-        c = strip(cond)
-        if c.k == "call" and c.a[0].name == "len" and c.a[1] and repr(strip(c.a[1][0])) == repr(es):
-            vals = [l for l in allowed if isinstance(l, int)]
-            if len(vals) == len(allowed) and vals:
-                adm = guards.intersect(adm, [(v, v) for v in sorted(vals)])
+        r = guards.constraint_set(cond, allowed, const_int, strip)
+        if r is not None:
+            q = strip(r[0])
+            if q.k == "call" and q.a[0].name == "len" and q.a[1] and repr(strip(q.a[1][0])) == repr(es):
+                adm = guards.intersect(adm, r[1])
                 hit = True
-        elif len(allowed) == 1:
-            r = guards.edge_set(cond, list(allowed)[0], const_int)
-            if r is not None:
-                q = strip(r[0])
-                if q.k == "call" and q.a[0].name == "len" and q.a[1] and repr(strip(q.a[1][0])) == repr(es):
-                    adm = guards.intersect(adm, r[1])
-                    hit = True
     if hit and len(adm) == 1 and adm[0][0] == adm[0][1]:
         return adm[0][0]
     return None
